@@ -30,10 +30,13 @@ def run(tier, seed):
         n = len(seq)
         for k in [rng.randrange(n) for _ in range(2 if q else 6)] + [1, n - 1]:
             recipes.append({"fn": "typing", "cls": cspec, "seq": seq, "twin": {"by": "rot", "k": k, "via": "api"}, "plasmid": key})
-    traces = [exec_typing(r) for r in recipes]
+    # typing through characterize (the way registries type the files of a directory): same type at every origin
+    recipes += tc.characterize_twins(rng, q, "rot")
+    from ..typing_drv import exec_characterize
+    traces = [exec_characterize(r) if r["fn"] == "characterize" else exec_typing(r) for r in recipes]
     for r, t in zip(recipes, traces):
         if t[0]["res"]["valid"]:
-            run.distinct.add((t[0]["cls"]["name"], r["seq"], r["twin"]["k"]))
+            run.distinct.add((t[0].get("cls", {}).get("name", t[0].get("base")), r["seq"], r["twin"]["k"]))
     run.add_sample({"recipe": recipes[0], "event": traces[0][0]})
     run.validate("typing-rot", "Trace_Typing", traces, recipes, sigfn=tc.typing_sig, describe=tc.typing_describe)
     try:
@@ -48,4 +51,5 @@ def run(tier, seed):
 
 def replay_case(rec):
     from ..core import generic_replay
-    return generic_replay(rec, exec_typing)
+    from ..typing_drv import exec_characterize
+    return generic_replay(rec, lambda r: exec_characterize(r) if r.get("fn") == "characterize" else exec_typing(r))
